@@ -28,7 +28,8 @@ fn main() {
     }
     let id = args[1].clone();
     if id == "__c19child" {
-        det::install_panic_hook(true);
+        let _ = det::self_exe();
+    det::install_panic_hook(true);
         let code = props::c19::child(args.get(2).map(|s| s.as_str()).unwrap_or(""));
         std::process::exit(code);
     }
